@@ -211,6 +211,16 @@ def build(tier, work, builder):
     for nm in ("subst", "rename"):
         jobs.append(F.Job("c07_type_" + nm, "h_c07_type_" + nm, [tyobj, tyh], unwind=10, functions=["type_t::" + nm + " (one level; children by contract)"],
                           bound_note="type nodes of arity <= 3"))
+    # the select binder of an edge (DocumentBuilder::proc_select / addSelectSymbolToFrame): the C04 builder job, run as a lemma of C07
+    from checks import C04
+    w4 = os.path.join(work, "c04"); os.makedirs(w4, exist_ok=True)
+    b4 = C04.build(tier, w4, builder)
+    sel = [j for j in b4["jobs"] if j.name == "c04_builder_select"]
+    if len(sel) != 1:
+        raise X.ExtractionBroken("C07: the select-binder job of C04 is missing")
+    sel[0].name = "c07_scope_select"
+    sel[0].note = "DocumentBuilder::proc_select (contracts/C04): the select binder is declared in the edge's select scope and is what its name denotes inside the edge, also when it shadows an outer declaration"
+    jobs.append(sel[0])
     st = stmt_scope_slices(work)
     slices = slices + [s.info() if hasattr(s, "info") else s for s in []]
     stobj = builder.cc(os.path.join(CDIR, "sb07.cpp"), includes=[work, os.path.join(X.REPO, "include")], cpp=True)
